@@ -834,6 +834,11 @@ func c18Shapes() []c18Shape {
 				tail := strings.Replace(c18Tail, "\treturn cnt(0)\n", c18Blk(m, "\t")+"\treturn cnt(0)\n", 1)
 				return h.text + pkg + tail, true
 			}},
+			// after the clause, and further down a raw string with a line
+			// that reads like another package clause
+			c18Shape{h.name + "P__M__rawpkg", "after", func(m []string, style string) (string, bool) {
+				return h.text + pkg + "\n" + c18Blk(m, "") + "\nvar c18tmpl = `\npackage q\n\nfunc G() {}\n`\n" + c18Tail, true
+			}},
 			c18Shape{h.name + "P__eof", "end-of-file", func(m []string, style string) (string, bool) {
 				return h.text + pkg + c18Tail + "\n" + c18Blk(m, ""), true
 			}},
